@@ -2,6 +2,7 @@ package rules
 
 import (
 	"go/token"
+	"go/types"
 	"sort"
 	"strings"
 
@@ -19,6 +20,7 @@ func c18(c *Ctx) {
 	c18classify(c, deschedLoadPkg)
 	c18bases(c, deschedLoadPkg)
 	c18names(c, deschedLoadPkg)
+	c18mark(c)
 	r.Decides("in evictPods an eviction is dominated by the continue-condition evaluated in the same iteration being true and by the pod filter passing; between a successful eviction and the next evaluation of the condition the node usage and the shared headroom are decremented (unless the pod has no metric)")
 	r.Decides("the balance call is unreachable when no node is overloaded, no overloaded node is a confirmed anomaly, no node is underused, too few nodes are underused, or all nodes are underused")
 	r.Decides("the source nodes handed to the eviction are the anomaly-filtered overloaded classes; the continue-condition returns true only for a node that is still over its high threshold and while every thresholded resource still has positive headroom")
@@ -330,6 +332,52 @@ func c18pool(c *Ctx, fn *ssa.Function) {
 		}
 	}
 	r.Check(thr, "FLOW", key+"/continue-condition/high-threshold", c.InstrPos(over), "compared against the high thresholds", "the continue-condition no longer compares against the high thresholds")
+
+	// usage and threshold of the same kind: prod usage with the prod threshold, node usage with the node threshold
+	r.Rule("PAIR(usage with its threshold): in the continue-condition, with the prod flag assumed true the operands of isNodeOverutilized are (prodUsage, prodHighResourceThreshold), with it assumed false (usage, highResourceThreshold)")
+	var prodFlag ssa.Value
+	for _, p := range cond.Params {
+		if bt, isB := p.Type().Underlying().(*types.Basic); isB && bt.Kind() == types.Bool {
+			prodFlag = p
+		}
+	}
+	if prodFlag == nil {
+		r.Unknown("PAIR", key+"/continue-condition/usage-threshold-pair", c.Pos(cond.Pos()), "the prod flag of the continue-condition was not found")
+		return
+	}
+	okPair, whyPair := true, ""
+	for _, sc := range []struct {
+		prod  an.Abs
+		u, t  string
+		label string
+	}{{an.True, ".prodUsage", ".prodHighResourceThreshold", "prod"}, {an.False, ".usage", ".highResourceThreshold", "node"}} {
+		facts := an.Facts{prodFlag: sc.prod}
+		// the flag may have been spilled: every load of its cell too
+		for _, b := range cond.Blocks {
+			for _, in := range b.Instrs {
+				if ld, isLd := in.(*ssa.UnOp); isLd && ld.Op == token.MUL {
+					for _, s2 := range cellSources(ld) {
+						if s2 == prodFlag {
+							facts[ld] = sc.prod
+						}
+					}
+				}
+			}
+		}
+		reach := an.Explore(cond, nil, facts, nil)
+		a := over.Common().Args
+		for _, v := range reach.Values(a[0]) {
+			if !strings.HasSuffix(an.Path(v), sc.u) {
+				okPair, whyPair = false, sc.label+" round: usage operand is "+an.Path(v)
+			}
+		}
+		for _, v := range reach.Values(a[1]) {
+			if !strings.HasSuffix(an.Path(v), sc.t) {
+				okPair, whyPair = false, sc.label+" round: threshold operand is "+an.Path(v)
+			}
+		}
+	}
+	r.Check(okPair, "PAIR", key+"/continue-condition/usage-threshold-pair", c.InstrPos(over), "usage and threshold of the same kind", "the stop test compares a usage with the threshold of the other kind ("+whyPair+"): prod pods keep being evicted until the whole node is under the prod threshold")
 }
 
 const anomalyPkg = "pkg/descheduler/utils/anomaly"
